@@ -30,7 +30,10 @@ func hexInt(s string) *big.Int { v, _ := new(big.Int).SetString(s, 16); return v
 // of hex digits, and a public key whose x has two leading zero bytes (found by search).
 func keyAlphabet(deep bool) []sm2k.Key {
 	ks := append([]sm2k.Key{}, sm2k.Alphabet()...)
-	add := func(name, h string) { d := hexInt(h); ks = append(ks, sm2k.Key{Name: name, D: d, Pub: refsm2.BaseMul(d)}) }
+	add := func(name, h string) {
+		d := hexInt(h)
+		ks = append(ks, sm2k.Key{Name: name, D: d, Pub: refsm2.BaseMul(d)})
+	}
 	add("d 1 leading zero byte", "00A1B2C3D4E5F60718293A4B5C6D7E8F90A1B2C3D4E5F60718293A4B5C6D7E8F")
 	add("d 3 leading zero bytes", "0000009F8E7D6C5B4A39281706F5E4D3C2B1A09F8E7D6C5B4A39281706F5E4D3")
 	add("d odd hex digits (top nibble 0)", "0ABCDEF0123456789ABCDEF0123456789ABCDEF0123456789ABCDEF012345678")
@@ -420,11 +423,13 @@ func loadersUnit() harness.Unit {
 
 // Prop registers C14.
 var Prop = &harness.Prop{
-	ID:    "C14",
-	Level: "exploration",
-	Rule: "full product of the key alphabet (12 shared keys + d with 1/3 leading zero bytes, odd hex digit counts, [thorough] Px with two leading zero bytes) x every codec pair (hex private/public, compressed point, PKIX DER/PEM, generic PKIX, PKCS#8 DER/PEM x passwords {nil, empty, ASCII, UTF-8, 1 KiB}) with field-by-field comparison; every wrong-password variant (one character, case, length +-1, empty) must be refused; (r,s) over 8 boundary values squared; ASN.1 ciphertext with 0..5 leading zero bytes in each coordinate; every (certificate, key) pair over 3 SM2 + RSA + P-256 identities for each TLS loader: accepted iff matching. Distinct/non-trivial = distinct (value, codec) labels.",
+	ID:          "C14",
+	Level:       "exploration",
+	Rule:        "full product of the key alphabet (12 shared keys + d with 1/3 leading zero bytes, odd hex digit counts, [thorough] Px with two leading zero bytes) x every codec pair (hex private/public, compressed point, PKIX DER/PEM, generic PKIX, PKCS#8 DER/PEM x passwords {nil, empty, ASCII, UTF-8, 1 KiB}) with field-by-field comparison; every wrong-password variant (one character, case, length +-1, empty) must be refused; (r,s) over 8 boundary values squared; ASN.1 ciphertext with 0..5 leading zero bytes in each coordinate; every (certificate, key) pair over 3 SM2 + RSA + P-256 identities for each TLS loader: accepted iff matching. Distinct/non-trivial = distinct (value, codec) labels.",
 	Assumptions: []string{"refsm2 computes the public points; salts/IVs of the encrypted PKCS#8 come from crypto/rand inside the library (not observed by the property)"},
-	Bounds:      func(tier string) string { return "complete for the stated alphabets; thorough adds the searched Px-with-two-leading-zero-bytes key" },
+	Bounds: func(tier string) string {
+		return "complete for the stated alphabets; thorough adds the searched Px-with-two-leading-zero-bytes key"
+	},
 	Units: func(tier string) []harness.Unit {
 		deep := tier == "thorough"
 		n := len(sm2k.Alphabet()) + 4
